@@ -18,6 +18,7 @@ MacroNext ==
      \/ EnStop(S) /\ S' = RunToQuiescence(ApplyStop(S))
      \/ \E l \in Leaves, ch \in {"v", "e", "d"} : EnCompleteLeaf(S, l) /\ S' = RunToQuiescence(ApplyCompleteLeaf(S, l, ch))
      \/ \E c \in Ctxs : EnRunCtx(S, c) /\ S' = RunToQuiescence(ApplyRunCtx(S, c))
+     \/ \E q \in Nodes : EnInnerStop(S, q) /\ S' = RunToQuiescence(ApplyInnerStop(S, q))
 MacroSpec == Init /\ [][MacroNext]_vars
 Obs(T) == [root |-> T.rootDone, starts |-> T.leafStarts, seen |-> T.stopSeen, fn |-> T.fnCalls]
 \* the external action is recoverable from S'.cur; the leaf channel from the leaf's completion... carried in lastCh
